@@ -138,7 +138,7 @@ func runHist(r *engine.Run) {
 				}
 				progs := source(root, S.path, o)
 				src := strings.Join(progs, "\n")
-				r.Begin(key)
+				objdrv.Begin(r, key)
 				im.Ensure()
 				panicked := ""
 				for _, p := range progs[:len(progs)-1] {
@@ -153,7 +153,7 @@ func runHist(r *engine.Run) {
 				} else {
 					obs = observe(im, progs[len(progs)-1], "")
 				}
-				r.End()
+				objdrv.End()
 				agree := true
 				for i := range exp {
 					if exp[i] != obs[i] && i != 3 {
